@@ -36,6 +36,9 @@ impl<I: Iterator<Item = f64>> Iterator for Counting<I> {
         }
         r
     }
+    fn size_hint(&self) -> (usize, Option<usize>) {
+        self.inner.size_hint()
+    }
 }
 
 struct V<'a, 'b> {
@@ -71,6 +74,15 @@ impl<'a, 'b> PwVisitor for V<'a, 'b> {
             fail!("evaluate_v yields more outputs than arguments");
         }
         drop(it);
+        // the same arguments as a plain Vec (exact size_hint) and through an adaptor with an unknown size
+        // must give the same bits: the answer may not depend on what the input iterator says about its length
+        let via_vec: Vec<f64> = lib!(pw.evaluate_v(xs.to_vec()).collect());
+        let via_unsized: Vec<f64> = lib!(pw.evaluate_v(xs.to_vec().into_iter().filter(|_| true)).collect());
+        for (name, v) in [("Vec", &via_vec), ("filter adaptor", &via_unsized)] {
+            if v.len() != out.len() || v.iter().zip(&out).any(|(a, b)| !same_bits(*a, *b)) {
+                fail!("evaluate_v over the same arguments gives different results depending on the input iterator: as {name} {:?}, pulled one at a time {:?}; ends {:?}, arguments {:?}", v, out, self.ends, xs);
+            }
+        }
         // values
         let mut m = f64::NEG_INFINITY;
         for (i, &x) in xs.iter().enumerate() {
@@ -145,7 +157,7 @@ impl Prop for C12 {
         "C12"
     }
     fn rule(&self) -> String {
-        "case = (segment list as in C02, sequence of 0..=60 (thorough 300) non-NaN arguments from the list's alphabet built from steps (absolute, relative, repeat, first/last, onto an end); half the cases sorted non-decreasing (with repeats), half arbitrary order). Oracle: output i must have the bits of segments[select(ends, max(xs[..=i]))].poly.evaluate(xs[i]) (selection model on the running maximum) and, for non-decreasing sequences, of Piecewise::evaluate(xs[i]); same length and order; laziness: the input is wrapped in a counting iterator; after pulling j outputs j (or, tolerating one argument of look-ahead, j+1) inputs have been consumed. Non-trivial: >=2 segments and the sequence crosses a breakpoint or hits an end exactly. Extra: all sequences of length 3 over the full alphabet for all sorted multisets of <=3 ends over the 5-point lattice.".into()
+        "case = (segment list as in C02, sequence of 0..=60 (thorough 300) non-NaN arguments from the list's alphabet built from steps (absolute, relative, repeat, first/last, onto an end); half the cases sorted non-decreasing (with repeats), half arbitrary order). Oracle: output i must have the bits of segments[select(ends, max(xs[..=i]))].poly.evaluate(xs[i]) (selection model on the running maximum) and, for non-decreasing sequences, of Piecewise::evaluate(xs[i]); same length and order, identical results whether the arguments arrive as a Vec (exact size_hint), through an adaptor of unknown size, or are pulled one at a time; laziness: the input is wrapped in a counting iterator; after pulling j outputs j (or, tolerating one argument of look-ahead, j+1) inputs have been consumed. Non-trivial: >=2 segments and the sequence crosses a breakpoint or hits an end exactly. Extra: all sequences of length 3 over the full alphabet for all sorted multisets of <=3 ends over the 5-point lattice.".into()
     }
     fn cases(&self, tier: Tier) -> u64 {
         tier.pick(600_000, 6_000_000)
